@@ -102,8 +102,14 @@ impl CryptPw {
 
     pub fn check_pw(&self, cred: &str) -> bool {
         match &self {
-            CryptPw::Sha256(crypt) => sha_crypt::sha256_check(cred, crypt.as_str()).is_ok(),
-            CryptPw::Sha512(crypt) => sha_crypt::sha512_check(cred, crypt.as_str()).is_ok(),
+            CryptPw::Sha256(crypt) => {
+                sha_crypt_digest_is_canonical(crypt.as_str(), 43, "./0123456789ABCD")
+                    && sha_crypt::sha256_check(cred, crypt.as_str()).is_ok()
+            }
+            CryptPw::Sha512(crypt) => {
+                sha_crypt_digest_is_canonical(crypt.as_str(), 86, "./01")
+                    && sha_crypt::sha512_check(cred, crypt.as_str()).is_ok()
+            }
             CryptPw::YesCrypt(crypt) => {
                 use yescrypt::{PasswordHash, PasswordVerifier, Yescrypt};
                 let password_hash = match PasswordHash::new(crypt.as_str()) {
@@ -121,6 +127,20 @@ impl CryptPw {
             CryptPw::Invalid => false,
         }
     }
+}
+
+/// The digest field of a `$5$`/`$6$` crypt string must be exactly the canonical sha-crypt
+/// base64 form (43 or 86 characters, the last one only carrying the remaining 4 or 2 bits).
+/// The sha-crypt library panics on a malformed sha256 digest and ignores characters that
+/// trail a valid digest, so the shape is checked here before a password is verified.
+fn sha_crypt_digest_is_canonical(crypt: &str, len: usize, last_chars: &str) -> bool {
+    crypt.rsplit('$').next().is_some_and(|digest| {
+        digest.len() == len
+            && digest
+                .bytes()
+                .all(|b| b == b'.' || b == b'/' || b.is_ascii_alphanumeric())
+            && digest.chars().last().is_some_and(|c| last_chars.contains(c))
+    })
 }
 
 mod timestamp_days {
